@@ -43,12 +43,7 @@ func main() {
 	case "replay":
 		os.Exit(cmdReplay(os.Args[2:]))
 	case "registry":
-		p, err := sym.Load(harnessDir, "./h")
-		if err != nil {
-			fmt.Fprintln(os.Stderr, err)
-			os.Exit(2)
-		}
-		if err := writeRegistry(p); err != nil {
+		if err := writeRegistry(); err != nil {
 			fmt.Fprintln(os.Stderr, err)
 			os.Exit(2)
 		}
@@ -87,6 +82,9 @@ func runProperty(opt options) int {
 	if !ok {
 		fmt.Fprintf(os.Stderr, "no check registered for %s\n", opt.prop)
 		return 2
+	}
+	if err := writeRegistry(); err != nil {
+		fmt.Fprintln(os.Stderr, "registry:", err)
 	}
 	prog, err := sym.Load(harnessDir, "./h")
 	if err != nil {
